@@ -5,11 +5,7 @@
  * an external has a model. */
 #include <stdint.h>
 #include <stddef.h>
-#ifndef REAL_T
 typedef double real_t;
-#else
-typedef REAL_T real_t;
-#endif
 #ifndef REAL32_T
 typedef float real32_t;
 #else
@@ -25,14 +21,51 @@ real_t nondet_real(void); real32_t nondet_real32(void);
 uint8_t vf_nondet_u8(void){ uint8_t vf_r = nondet_uint8_t(); return vf_r; }
 uint32_t vf_nondet_u32(void){ uint32_t vf_r = nondet_uint32_t(); return vf_r; }
 uint64_t vf_nondet_u64(void){ uint64_t vf_r = nondet_uint64_t(); return vf_r; }
+/* Reduced-precision mode (-DVF_NARROW_T=__CPROVER_floatbv[w][m]): doubles keep
+ * their 8-byte storage (so the byte offsets and sizes baked into the IR stay
+ * valid) but every value is representable in the narrow IEEE format and every
+ * arithmetic operation is rounded to it: exactly IEEE arithmetic at that
+ * format.  Without VF_NARROW_T these are the plain double operations. */
+#ifdef VF_NARROW_T
+typedef VF_NARROW_T vf_narrow_t;
+static inline real_t vf_narrow(real_t x){ return (real_t)(vf_narrow_t)x; }
+static inline real_t vf_fadd(real_t a, real_t b){ return (real_t)((vf_narrow_t)a + (vf_narrow_t)b); }
+static inline real_t vf_fsub(real_t a, real_t b){ return (real_t)((vf_narrow_t)a - (vf_narrow_t)b); }
+static inline real_t vf_fmul(real_t a, real_t b){ return (real_t)((vf_narrow_t)a * (vf_narrow_t)b); }
+static inline real_t vf_fdiv(real_t a, real_t b){ return (real_t)((vf_narrow_t)a / (vf_narrow_t)b); }
+vf_narrow_t nondet_narrow(void);
+real_t vf_nondet_f64(void){ vf_narrow_t h = nondet_narrow(); real_t vf_r = (real_t)h; return vf_r; }
+#else
+static inline real_t vf_narrow(real_t x){ return x; }
+static inline real_t vf_fadd(real_t a, real_t b){ return a + b; }
+static inline real_t vf_fsub(real_t a, real_t b){ return a - b; }
+static inline real_t vf_fmul(real_t a, real_t b){ return a * b; }
+static inline real_t vf_fdiv(real_t a, real_t b){ return a / b; }
 real_t vf_nondet_f64(void){ real_t vf_r = nondet_real(); return vf_r; }
+#endif
 real32_t vf_nondet_f32(void){ real32_t vf_r = nondet_real32(); return vf_r; }
 static inline void vf_assume(unsigned char c){ __CPROVER_assume(c); }
 static inline void vf_cut(void){ __CPROVER_assume(0); }
 static inline void vf_unreachable(void){ __CPROVER_assert(0,"unreachable reached"); __CPROVER_assume(0); }
 
 /* ---- heap ---- */
-static inline unsigned char* vf_new(uint64_t n){ unsigned char* p = malloc(n ? n : 1); __CPROVER_assume(p != 0); return p; }
+/* Allocation model.  A malloc of SYMBOLIC size makes CBMC fall back to array
+ * theory for the block (quadratic constraints, the usual cause of out-of-memory
+ * runs).  A harness may therefore name the sizes it expects
+ * (-DVF_ALLOC_CLASSES='VF_C(4) VF_C(8) ...'): a request equal to a class gets
+ * an exact, constant-size block (so heap bounds checks stay exact); with
+ * -DVF_ALLOC_STRICT any other size is an assertion failure ("the bound of this
+ * harness"), otherwise it falls back to the symbolic-size block. */
+#ifndef VF_ALLOC_CLASSES
+#define VF_ALLOC_CLASSES
+#endif
+#define VF_C(c) if (n == (c)) { unsigned char* q = malloc(c); __CPROVER_assume(q != 0); return q; }
+static inline unsigned char* vf_new(uint64_t n){
+  VF_ALLOC_CLASSES
+#ifdef VF_ALLOC_STRICT
+  if (n != 0) { __CPROVER_assert(0, "allocation size outside the harness's size classes (bound)"); __CPROVER_assume(0); }
+#endif
+  unsigned char* p = malloc(n ? n : 1); __CPROVER_assume(p != 0); return p; }
 #define HAVE_f__Znwm
 #define HAVE_f__Znam
 #define HAVE_f__ZdlPv
@@ -97,7 +130,7 @@ static inline void vf_fptoui_chk32(real_t x){ __CPROVER_assert(x > -1.0 && x < 4
 /* ---- floating point intrinsics / libm ---- */
 static inline real_t vf_fabs_f64(real_t x){ return x<0?-x:(x==0?(real_t)0.0:x); }
 static inline real32_t vf_fabs_f32(real32_t x){ return x<0?-x:(x==0?(real32_t)0.0:x); }
-static inline real_t vf_fmuladd_f64(real_t a, real_t b, real_t c){ return a*b+c; }
+static inline real_t vf_fmuladd_f64(real_t a, real_t b, real_t c){ return vf_fadd(vf_fmul(a,b),c); }
 static inline real32_t vf_fmuladd_f32(real32_t a, real32_t b, real32_t c){ return a*b+c; }
 static inline real_t vf_minnum_f64(real_t a, real_t b){ if(a!=a) return b; if(b!=b) return a; return a<b?a:b; }
 static inline real_t vf_maxnum_f64(real_t a, real_t b){ if(a!=a) return b; if(b!=b) return a; return a>b?a:b; }
@@ -105,14 +138,14 @@ static inline real_t vf_maxnum_f64(real_t a, real_t b){ if(a!=a) return b; if(b!
 #define HAVE_f_fmax
 static inline real_t f_fmin(real_t a, real_t b){ return vf_minnum_f64(a,b); }
 static inline real_t f_fmax(real_t a, real_t b){ return vf_maxnum_f64(a,b); }
-#ifndef REAL_T
+#if 1
 double sqrt(double); double floor(double); double ceil(double); double round(double); double trunc(double); double fabs(double);
 #define HAVE_f_sqrt
 #define HAVE_f_floor
 #define HAVE_f_ceil
 #define HAVE_f_round
-static inline real_t vf_sqrt_f64(real_t x){ return sqrt(x); }
-static inline real_t f_sqrt(real_t x){ return sqrt(x); }
+static inline real_t vf_sqrt_f64(real_t x){ return vf_narrow(sqrt(x)); }
+static inline real_t f_sqrt(real_t x){ return vf_narrow(sqrt(x)); }
 static inline real_t vf_floor_f64(real_t x){ return floor(x); }
 static inline real_t f_floor(real_t x){ return floor(x); }
 static inline real_t vf_ceil_f64(real_t x){ return ceil(x); }
